@@ -535,6 +535,9 @@ func initReflect(i *interpreter) {
 
 	i.rtypeMethods = methodSet{
 		"Bits":      newMethod(i.reflectPackage, rtypeType, "Bits"),
+		"Comparable": newMethod(i.reflectPackage, rtypeType, "Comparable"),
+		"Name":      newMethod(i.reflectPackage, rtypeType, "Name"),
+		"PkgPath":   newMethod(i.reflectPackage, rtypeType, "PkgPath"),
 		"Elem":      newMethod(i.reflectPackage, rtypeType, "Elem"),
 		"Field":     newMethod(i.reflectPackage, rtypeType, "Field"),
 		"In":        newMethod(i.reflectPackage, rtypeType, "In"),
@@ -549,5 +552,23 @@ func initReflect(i *interpreter) {
 	}
 	i.errorMethods = methodSet{
 		"Error": newMethod(i.reflectPackage, errorType, "Error"),
+	}
+}
+
+func init() {
+	externals["(reflect.rtype).Comparable"] = func(fr *frame, args []value) value {
+		return types.Comparable(args[0].(rtype).t)
+	}
+	externals["(reflect.rtype).Name"] = func(fr *frame, args []value) value {
+		if n, ok := types.Unalias(args[0].(rtype).t).(*types.Named); ok {
+			return n.Obj().Name()
+		}
+		return ""
+	}
+	externals["(reflect.rtype).PkgPath"] = func(fr *frame, args []value) value {
+		if n, ok := types.Unalias(args[0].(rtype).t).(*types.Named); ok && n.Obj().Pkg() != nil {
+			return n.Obj().Pkg().Path()
+		}
+		return ""
 	}
 }
